@@ -24,4 +24,11 @@ theorem pin_stack_non_fresh_writes : PP.Extracted.stackNonFreshWrites =
 
 theorem pin_internal_non_fresh_writes : PP.Extracted.internalNonFreshWrites = [] := by decide
 
+/-- `ScanSnapshot` hands `opts.LocalGOPATHs` to the snapshot by reference (`LocalGOPATHs:
+opts.LocalGOPATHs`), and the same `Opts` value may be used by many goroutines at once: no
+function of the package assigns an element of, sorts, copies over or appends to that slice (or
+a local alias of it).  The model's `findRoots` takes the list by value, so this is what makes
+"the options are not modified" true of the code. -/
+theorem pin_gopaths_never_written : PP.Extracted.stackGopathsWrites = [] := by decide
+
 end PP.Tie
